@@ -804,10 +804,10 @@ impl Prop for Finds {
     }
     fn floors(&self) -> Vec<(&'static str, u64, u64)> {
         match self.0 {
-            Which::Prefix => vec![("prefix len 1", 500, 5000), ("prefix len 2", 500, 5000), ("prefix len >3", 2000, 20000), ("word with stem < len", 200, 2000), ("function word", 20, 200), ("word > 20 letters", 20, 200), ("judged queries echoed through the registry after a locale switch of the id", 500, 5000), ("judged queries preceded by the same query under a lower limit", 1000, 10000), ("stores with a title in letters outside the BMP", 20, 200), ("stores with a word (or word pair) of more than 1024 letters", 2, 20), ("stores with a word of more than 4096 letters", 2, 10), ("stores cleared and refilled before the judged searches", 100, 1000), ("judged queries preceded by the searches of a person typing them", 5000, 50000), ("titles with more than 20 words", 100, 1000), ("catalogues of more than 2^19 records that share their first letter", 1, 10), ("titles with more than 1024 words", 1, 5), ("queries judged after a pause of about 2^16 searches that left their record alone", 4, 20)],
-            Which::Typo => vec![("substitution at first", 50, 500), ("insertion at first", 50, 500), ("deletion at first", 50, 500), ("transposition at first", 50, 500), ("transposition at last", 50, 500), ("len 5", 200, 2000), ("len >20", 100, 1000), ("judged queries echoed through the registry after a locale switch of the id", 500, 5000), ("judged queries preceded by the same query under a lower limit", 1000, 10000), ("stores with a title in letters outside the BMP", 20, 200), ("stores with a word (or word pair) of more than 1024 letters", 2, 20), ("stores with a word of more than 4096 letters", 2, 10), ("stores cleared and refilled before the judged searches", 100, 1000), ("typo letter that is an accented letter of the language", 3000, 30000), ("judged queries preceded by the searches of a person typing them", 5000, 50000), ("titles with more than 20 words", 30, 300), ("exhaustive-letter edits", 30000, 250000), ("exhaustive-letter words that are function words", 150, 150), ("titles with more than 1024 words", 1, 5), ("queries judged after a pause of about 2^16 searches that left their record alone", 4, 20)],
-            Which::Whole => vec![("whole title", 1000, 10000), ("first last", 300, 3000), ("judged queries echoed through the registry after a locale switch of the id", 500, 5000), ("judged queries preceded by the same query under a lower limit", 1000, 10000), ("stores with a title in letters outside the BMP", 20, 200), ("stores with a word (or word pair) of more than 1024 letters", 2, 20), ("stores with a word of more than 4096 letters", 2, 10), ("stores cleared and refilled before the judged searches", 100, 1000), ("judged queries preceded by the searches of a person typing them", 5000, 50000), ("last first", 300, 3000), ("title with function word", 50, 500), ("titles with more than 20 words", 200, 2000), ("catalogues searched while small, then grown and given limit = N", 6, 60), ("titles with more than 65 536 distinct grams", 1, 10), ("titles with more than 1024 words", 1, 5), ("queries judged after a pause of about 2^16 searches that left their record alone", 4, 20)],
-            Which::SplitJoin => vec![("split", 2000, 20000), ("split after first letter", 200, 2000), ("judged queries echoed through the registry after a locale switch of the id", 500, 5000), ("judged queries preceded by the same query under a lower limit", 1000, 10000), ("stores with a title in letters outside the BMP", 20, 200), ("stores with a word (or word pair) of more than 1024 letters", 2, 20), ("stores with a word of more than 4096 letters", 2, 10), ("stores cleared and refilled before the judged searches", 100, 1000), ("judged queries preceded by the searches of a person typing them", 5000, 50000), ("join", 100, 1000), ("join with 1-letter first word", 3, 30), ("titles with more than 20 words", 100, 1000), ("split followed by a separator", 20000, 200000), ("split next to symbols inside the word", 300, 3000), ("titles with more than 1024 words", 1, 5), ("queries judged after a pause of about 2^16 searches that left their record alone", 4, 20)],
+            Which::Prefix => vec![("prefix len 1", 500, 5000), ("prefix len 2", 500, 5000), ("prefix len >3", 2000, 20000), ("word with stem < len", 200, 2000), ("function word", 20, 200), ("word > 20 letters", 20, 200), ("judged queries echoed through the registry after a locale switch of the id", 500, 5000), ("judged queries preceded by the same query under a lower limit", 1000, 10000), ("stores with a title in letters outside the BMP", 20, 200), ("stores with a word (or word pair) of more than 1024 letters", 2, 20), ("stores with a word of more than 4096 letters", 0, 10), ("stores cleared and refilled before the judged searches", 100, 1000), ("judged queries preceded by the searches of a person typing them", 5000, 50000), ("titles with more than 20 words", 100, 1000), ("catalogues of more than 2^19 records that share their first letter", 1, 10), ("titles with more than 1024 words", 1, 5), ("queries judged after a pause of about 2^16 searches that left their record alone", 4, 20)],
+            Which::Typo => vec![("substitution at first", 50, 500), ("insertion at first", 50, 500), ("deletion at first", 50, 500), ("transposition at first", 50, 500), ("transposition at last", 50, 500), ("len 5", 200, 2000), ("len >20", 100, 1000), ("judged queries echoed through the registry after a locale switch of the id", 500, 5000), ("judged queries preceded by the same query under a lower limit", 1000, 10000), ("stores with a title in letters outside the BMP", 20, 200), ("stores with a word (or word pair) of more than 1024 letters", 2, 20), ("stores with a word of more than 4096 letters", 0, 10), ("stores cleared and refilled before the judged searches", 100, 1000), ("typo letter that is an accented letter of the language", 3000, 30000), ("judged queries preceded by the searches of a person typing them", 5000, 50000), ("titles with more than 20 words", 30, 300), ("exhaustive-letter edits", 30000, 250000), ("exhaustive-letter words that are function words", 150, 150), ("titles with more than 1024 words", 1, 5), ("queries judged after a pause of about 2^16 searches that left their record alone", 4, 20)],
+            Which::Whole => vec![("whole title", 1000, 10000), ("first last", 300, 3000), ("judged queries echoed through the registry after a locale switch of the id", 500, 5000), ("judged queries preceded by the same query under a lower limit", 1000, 10000), ("stores with a title in letters outside the BMP", 20, 200), ("stores with a word (or word pair) of more than 1024 letters", 2, 20), ("stores with a word of more than 4096 letters", 0, 10), ("stores cleared and refilled before the judged searches", 100, 1000), ("judged queries preceded by the searches of a person typing them", 5000, 50000), ("last first", 300, 3000), ("title with function word", 50, 500), ("titles with more than 20 words", 200, 2000), ("catalogues searched while small, then grown and given limit = N", 6, 60), ("titles with more than 65 536 distinct grams", 1, 10), ("titles with more than 1024 words", 1, 5), ("queries judged after a pause of about 2^16 searches that left their record alone", 4, 20)],
+            Which::SplitJoin => vec![("split", 2000, 20000), ("split after first letter", 200, 2000), ("judged queries echoed through the registry after a locale switch of the id", 500, 5000), ("judged queries preceded by the same query under a lower limit", 1000, 10000), ("stores with a title in letters outside the BMP", 20, 200), ("stores with a word (or word pair) of more than 1024 letters", 2, 20), ("stores with a word of more than 4096 letters", 0, 10), ("stores cleared and refilled before the judged searches", 100, 1000), ("judged queries preceded by the searches of a person typing them", 5000, 50000), ("join", 100, 1000), ("join with 1-letter first word", 3, 30), ("titles with more than 20 words", 100, 1000), ("split followed by a separator", 20000, 200000), ("split next to symbols inside the word", 300, 3000), ("titles with more than 1024 words", 1, 5), ("queries judged after a pause of about 2^16 searches that left their record alone", 4, 20)],
         }
     }
     fn ratios(&self) -> Vec<(&'static str, &'static str, f64, f64)> {
